@@ -1027,28 +1027,78 @@ pub fn gen(seed: u64, tier: &str) -> Vec<String> {
         let c = gen_content(&mut rng, max_cells, true);
         lines.push(format!("c01.s{:06} ser {} {}", i, end_tag(c.big), c.fields(true)));
     }
-    // outside the domain: one string the codec cannot encode (model tie for the error path; oracle skips)
-    for i in 0..(if thorough { 600 } else { 60 }) {
-        let mut c = gen_content(&mut rng, 10, true);
-        let bad = format!("{}{}", rng.pick(&["a", "", "ｱ"]), rng.pick(&["é", "€", "😀", "ab\u{3b1}\u{7e6}"]));
-        assert!(SHIFT_JIS.encode(&bad).2);
-        match rng.below(3) {
-            0 if !c.strings.is_empty() => {
-                let k = rng.below(c.strings.len() as u64) as usize;
-                c.strings[k].1 = bad
+    // outside the domain: one string the codec cannot encode.  The model ties the error path; the oracle
+    // demands that whatever `serialize` ACCEPTS re-parses to exactly the content that was written.
+    // Enumerated: unencodable character x position (last, first, middle, only) x kind (string, label, c-string).
+    {
+        let alpha = alphabet();
+        let mut k = 0usize;
+        for _round in 0..(if thorough { 20 } else { 2 }) {
+            for bad_ch in ["é", "✓", "😀", "€"] {
+                for pos in 0..4 {
+                    for kind in 0..3 {
+                        let w1 = long_string(&mut rng, &alpha, 1, 6);
+                        let w2 = long_string(&mut rng, &alpha, 1, 6);
+                        let bad = match pos {
+                            0 => format!("{}{}", w1, bad_ch),
+                            1 => format!("{}{}", bad_ch, w1),
+                            2 => format!("{}{}{}", w1, bad_ch, w2),
+                            _ => bad_ch.to_string(),
+                        };
+                        assert!(SHIFT_JIS.encode(&bad).2);
+                        let mut done = false;
+                        for _try in 0..40 {
+                            let mut c = gen_content(&mut rng, 8, true);
+                            match kind {
+                                0 if !c.strings.is_empty() => {
+                                    let i = rng.below(c.strings.len() as u64) as usize;
+                                    c.strings[i].1 = bad.clone()
+                                }
+                                1 if c.labels.iter().any(|l| !l.1.is_empty()) => {
+                                    let idx: Vec<usize> =
+                                        (0..c.labels.len()).filter(|i| !c.labels[*i].1.is_empty()).collect();
+                                    let i = *rng.pick(&idx);
+                                    let j = rng.below(c.labels[i].1.len() as u64) as usize;
+                                    c.labels[i].1[j] = bad.clone()
+                                }
+                                2 if !c.cstrings.is_empty() => {
+                                    let i = rng.below(c.cstrings.len() as u64) as usize;
+                                    c.cstrings[i].0 = bad.clone()
+                                }
+                                _ => continue,
+                            }
+                            lines.push(format!("c01.e{:06} ser {} {}", k, end_tag(c.big), c.fields(true)));
+                            k += 1;
+                            done = true;
+                            break;
+                        }
+                        assert!(done);
+                    }
+                }
             }
-            1 if c.labels.iter().any(|l| !l.1.is_empty()) => {
-                let idx: Vec<usize> = (0..c.labels.len()).filter(|i| !c.labels[*i].1.is_empty()).collect();
-                let k = *rng.pick(&idx);
-                c.labels[k].1[0] = bad
-            }
-            _ if !c.cstrings.is_empty() && !c.cstrings.iter().any(|p| p.0 == bad) => {
-                let k = rng.below(c.cstrings.len() as u64) as usize;
-                c.cstrings[k].0 = bad
-            }
-            _ => continue,
         }
-        lines.push(format!("c01.e{:06} ser {} {}", i, end_tag(c.big), c.fields(true)));
+        // the three code points the codec folds (U+00A5, U+203E, U+2212) are outside the quantifier: skipped on both sides
+        for lossy in ["\u{A5}", "\u{203E}", "\u{2212}"] {
+            for kind in 0..3 {
+                let mut c = gen_content(&mut rng, 6, true);
+                let bad = format!("a{}b", lossy);
+                let add_label = |c: &mut Content, bad: String| {
+                    let end = c.data.len();
+                    match c.labels.iter_mut().find(|l| l.0 == end) {
+                        Some(l) => l.1.push(bad),
+                        None => c.labels.push((end, vec![bad])),
+                    }
+                };
+                match kind {
+                    0 => add_label(&mut c, bad),
+                    1 if !c.strings.is_empty() => c.strings[0].1 = bad,
+                    2 if !c.cstrings.is_empty() => c.cstrings[0].0 = bad,
+                    _ => add_label(&mut c, bad),
+                }
+                lines.push(format!("c01.y{:06} ser {} {}", k, end_tag(c.big), c.fields(true)));
+                k += 1;
+            }
+        }
     }
     for i in 0..(if thorough { 300 } else { 30 }) {
         let c = gen_content(&mut rng, 12, true);
@@ -1103,8 +1153,18 @@ pub fn gen(seed: u64, tier: &str) -> Vec<String> {
 // running the implementation
 // ------------------------------------------------------------------------------------------------
 
+fn has_lossy(s: &str) -> bool {
+    s.chars().any(|ch| ch == '\u{A5}' || ch == '\u{203E}' || ch == '\u{2212}')
+}
+
 fn run_ser(line: &str, f: &[&str]) -> String {
     let c = Content::parse(f[2] == "BE", &f[3..], true);
+    if c.strings.iter().any(|p| has_lossy(&p.1))
+        || c.labels.iter().any(|p| p.1.iter().any(|n| has_lossy(n)))
+        || c.cstrings.iter().any(|p| has_lossy(&p.0))
+    {
+        return "ok lossy-skip".to_string();
+    }
     let mut rng = Rng::new(fnv(line));
     // >= 5 freshly built archives (fresh hash states), each through a different call order
     let mut images: Vec<Result<Vec<u8>, String>> = Vec::new();
